@@ -17,6 +17,7 @@ import Driver.C15
 import Driver.C09
 import Driver.C06
 import Driver.C13
+import Driver.C01
 /-
   kdriver: one request per line on stdin, `model<TAB>spec` per line on stdout.
   Anything it cannot parse is answered `bad-op<TAB>bad-op` (never a default value).
@@ -29,7 +30,8 @@ def dispatch (line : String) : String :=
     match toks with
     | [] => none
     | op :: args =>
-      if op.startsWith "s." then Driver.C02.handle (op.drop 2).toString args
+      if op.startsWith "ub." then Driver.C01.handle (op.drop 3).toString args
+      else if op.startsWith "s." then Driver.C02.handle (op.drop 2).toString args
       else if op == "chain" then Driver.C10.handle args
       else if op == "pm" then Driver.C18.handle args
       else if op == "pm.compile" then Driver.C18.handleCompile args
